@@ -25,13 +25,13 @@ Theorem C16_patched_code_meets_spec :
     cur (fst r) = zlen (matched (fst r)) /\
     total (fst r) = i_total (fst ir) /\
     NoDup (keys (matched (fst r))) /\
-    (true = true -> map x_key (prox (fst r)) = keys (matched (fst r))).
-Proof. exact fixed_refines_spec. Qed.
+    map x_key (prox (fst r)) = keys (matched (fst r)).
+Proof. exact fixed_refines_spec_clean. Qed.
 
 (* The code as it is: the same for every history that never (1) updates a matched endpoint with
    compatible QoS, (2) updates a matched endpoint to incompatible QoS, (3) removes a participant
    that owns a matched endpoint (classes decided on the specification state, see class_of);
-   deletions of matched endpoints (class 4) are allowed here: counts, lists and change fields. *)
+   deletions of matched endpoints (class 4) are allowed here: status replies, list, counts. *)
 Theorem C16_counts_track_matched_set_outside_known_classes :
   forall sd compat acts,
     first_class compat false ideal0 acts = 0%N ->
@@ -41,9 +41,8 @@ Theorem C16_counts_track_matched_set_outside_known_classes :
     keys (matched (fst r)) = i_keys (fst ir) /\
     cur (fst r) = zlen (matched (fst r)) /\
     total (fst r) = i_total (fst ir) /\
-    NoDup (keys (matched (fst r))) /\
-    (false = true -> map x_key (prox (fst r)) = keys (matched (fst r))).
-Proof. exact faithful_counts_outside_classes. Qed.
+    NoDup (keys (matched (fst r))).
+Proof. exact faithful_counts_clean. Qed.
 
 (* ... and the RTPS proxy set equals the matched set for every history that in addition never
    deletes a matched endpoint (class 4). *)
@@ -51,14 +50,23 @@ Theorem C16_proxies_eq_matched_outside_known_classes :
   forall sd compat acts,
     first_class compat true ideal0 acts = 0%N ->
     let r := run sd false compat st0 acts in
-    let ir := irun compat ideal0 acts in
-    snd r = snd ir /\
-    keys (matched (fst r)) = i_keys (fst ir) /\
-    cur (fst r) = zlen (matched (fst r)) /\
-    total (fst r) = i_total (fst ir) /\
-    NoDup (keys (matched (fst r))) /\
-    (true = true -> map x_key (prox (fst r)) = keys (matched (fst r))).
-Proof. exact faithful_proxies_outside_classes. Qed.
+    map x_key (prox (fst r)) = keys (matched (fst r)).
+Proof. exact faithful_proxies_clean. Qed.
+
+(* The specification itself: a status read returns (total, total - total at the previous read,
+   size of the set, size - size at the previous read); total grows by one exactly when an
+   endpoint that is not in the set is announced with compatible QoS. *)
+Theorem C16_spec_read_and_match :
+  forall compat i d,
+    snd (istep compat i ARead) =
+      Some (i_total i, i_total i - i_rt i, zlen (i_keys i), zlen (i_keys i) - i_rc i) /\
+    i_rt (fst (istep compat i ARead)) = i_total i /\
+    i_rc (fst (istep compat i ARead)) = zlen (i_keys i) /\
+    (compat d = true -> kmem (ekey d) (i_keys i) = false ->
+       i_keys (fst (istep compat i (ADisc d))) = i_keys i ++ [ekey d] /\
+       i_total (fst (istep compat i (ADisc d))) = i_total i + 1) /\
+    (compat d = true -> kmem (ekey d) (i_keys i) = true -> fst (istep compat i (ADisc d)) = i).
+Proof. exact spec_read_and_match. Qed.
 
 (* Each class really breaks the property on the code as it is (both sides). *)
 Theorem C16_update_of_matched_endpoint_is_recounted :
@@ -102,6 +110,7 @@ Proof. exact clean_history_nonvacuous. Qed.
 Print Assumptions C16_patched_code_meets_spec.
 Print Assumptions C16_counts_track_matched_set_outside_known_classes.
 Print Assumptions C16_proxies_eq_matched_outside_known_classes.
+Print Assumptions C16_spec_read_and_match.
 Print Assumptions C16_update_of_matched_endpoint_is_recounted.
 Print Assumptions C16_incompatible_update_stays_matched.
 Print Assumptions C16_participant_removal_keeps_counts.
